@@ -234,7 +234,7 @@ func runC15(c *explore.Ctx) {
 	}
 	var spaces []c15Space
 	if c.Thorough() {
-		spaces = []c15Space{{"E", "ROLL", 7}, {"E", "ROLL1", 7}, {"S2", "ROLL", 6}, {"E", "BIGC", 6}, {"S3", "ROLL", 5}, {"LG", "ROLL", 5}, {"RU", "ROLL", 5}, {"S4", "ROLL", 5}}
+		spaces = []c15Space{{"E", "ROLL", 8}, {"E", "ROLL1", 8}, {"S2", "ROLL", 7}, {"E", "BIGC", 7}, {"S3", "ROLL", 6}, {"LG", "ROLL", 6}, {"RU", "ROLL", 6}, {"S4", "ROLL", 6}}
 	} else {
 		spaces = []c15Space{{"E", "ROLL", 4}, {"E", "ROLL1", 4}, {"S2", "ROLL", 3}, {"E", "BIGC", 4}, {"LG", "ROLL", 3}}
 	}
